@@ -17,6 +17,19 @@ pub fn c17_secret_key_decoders_total(bytes: &[u8], arr: &[u8; 32])
     let _ = SecretKeyEnum::from_be_bytes(bytes);
     let _ = SecretKeyEnum::from_le_bytes(bytes);
 }
+/// the point-valued and commitment-scalar decoders return for every byte string of every length
+pub fn c17_point_and_scalar_decoders_total(bytes: &[u8], arr: &[u8; 32])
+{
+    let _ = PublicKey::try_from(bytes);
+    let _ = MultiPublicKey::try_from(bytes);
+    let _ = ProofOfPossession::try_from(bytes);
+    let _ = ProofCommitmentSecret::try_from(bytes);
+    let _ = ProofCommitmentChallenge::try_from(bytes);
+    let _ = ProofCommitmentSecret::from_be_bytes(arr);
+    let _ = ProofCommitmentSecret::from_le_bytes(arr);
+    let _ = ProofCommitmentChallenge::from_be_bytes(arr);
+    let _ = ProofCommitmentChallenge::from_le_bytes(arr);
+}
 /// signcryption: validity check and both decryption paths return for every ciphertext (empty,
 /// one-byte and arbitrary payloads, any length prefix)
 pub fn c17_signcrypt_total(ct: &SignCryptCiphertext, sk: &SecretKey, dk: &SignCryptDecryptionKey)
